@@ -359,6 +359,43 @@ impl Prop for C14 {
         }
         match cx.gen.as_str() {
             "raw-proto-raw" => {
+                // one library in twelve: an instance whose angle is not a whole number of degrees, by a hair (computed angles: (0.1+0.2)*100,
+                // 90+1e-12, 1e-10) or plainly (22.5). The schema stores whole degrees, so such a rotation cannot be preserved: the export
+                // may refuse; what it may not do is succeed (the rotation that comes back would be another one)
+                if cx.n % 12 == 7 {
+                    let mut placed = None;
+                    for c in g.lib.cells.iter() {
+                        let mut c = c.write().unwrap();
+                        if let Some(l) = c.layout.as_mut() {
+                            if let Some(i) = l.insts.first_mut() {
+                                let base = i.angle.unwrap_or(0.0);
+                                let a = match cx.rng.below(5) {
+                                    0 => (0.1 + 0.2) * 100.0,
+                                    1 => base + 1e-12 * (1.0 + base.abs()),
+                                    2 => 1e-10,
+                                    3 => base - 3e-13 * (1.0 + base.abs()),
+                                    _ => base + 22.5,
+                                };
+                                if a.fract() != 0.0 {
+                                    i.angle = Some(a);
+                                    placed = Some(a);
+                                }
+                                break;
+                            }
+                        }
+                    }
+                    if let Some(a) = placed {
+                        cx.eval();
+                        match guard(|| g.lib.to_proto()) {
+                            Err(c) => cx.violation(&format!("export-panic|{}|{}", c.site(), c.norm_msg()), json!({"panic": c.msg, "angle": a})),
+                            Ok(Err(_)) => cx.count("fractional_angle_export_refused"),
+                            Ok(Ok(_)) => cx.violation(if (a - a.round()).abs() < 1e-6 { "export|near-whole-angle-rounded" } else { "export|fractional-angle-accepted" }, json!({"angle": a, "angle_bits": format!("{:016x}", a.to_bits())})),
+                        }
+                    } else {
+                        cx.count("fractional_angle_case_without_instance");
+                    }
+                    return;
+                }
                 let p = match guard(|| g.lib.to_proto()) {
                     Err(c) => {
                         cx.violation(&format!("export-panic|{}|{}", c.site(), c.norm_msg()), json!({"panic": c.msg}));
